@@ -69,6 +69,9 @@ def cases(tier, seed):
     # a field switched on from exactly zero (in one gauge the potential is identically zero at t = 0, in the other it is not)
     for d, scr in itertools.product(devs[:1] if quick else devs[:2], (False, True)):
         out.append(dict(fam="run", dev=d, biased=False, screening=scr, shift=[2.5, -1.5], ramp=4.0, from_zero=True))
+    # the seed of the shifted run is a saved state of the unshifted problem, gauge-transformed by the user
+    for d, biased, ramp in itertools.product(devs[:1] if quick else devs[:2], (False, True), (0.0, 0.5)):
+        out.append(dict(fam="run", dev=d, biased=biased, screening=False, shift=[2.5, -1.5], ramp=ramp, seed_gauge="other"))
     # thermalisation first: the recorded stage restarts step counter and clock on a solver whose operators hold the last potential
     for d, shift, (ramp, fz) in itertools.product(devs[:1] if quick else devs[:2], ((40.0, 25.0), (2.5, -1.5)), ((0.5, False), (4.0, True))):
         out.append(dict(fam="run", dev=d, biased=False, screening=False, shift=list(shift), ramp=ramp, from_zero=fz, thermal=True))
@@ -215,13 +218,18 @@ def run_run(case):
                                   include_screening=case["screening"], screening_tolerance=1e-6, max_iterations_per_step=5000,
                                   progress_interval=10**9, skip_time=(3 * dt if case.get("thermal") and steps else 0.0))
 
-    def run(x0, y0, tag):
+    def potential(x0, y0):
         if case.get("ramp"):
-            A = tdgl.Parameter(_shifted_A_t, time_dependent=True, B=B, x0=x0, y0=y0, rate=case["ramp"], B0=(0.0 if case.get("from_zero") else None))
-        else:
-            A = tdgl.Parameter(_shifted_A, B=B, x0=x0, y0=y0)
-        # one-frame file of this problem, psi overwritten with exp(i chi), used as the seed
-        s0 = tdgl.solve(dev, opts(f"seed-{tag}.h5", 0), applied_vector_potential=A, **kw)
+            return tdgl.Parameter(_shifted_A_t, time_dependent=True, B=B, x0=x0, y0=y0, rate=case["ramp"], B0=(0.0 if case.get("from_zero") else None))
+        return tdgl.Parameter(_shifted_A, B=B, x0=x0, y0=y0)
+
+    def run(x0, y0, tag):
+        A = potential(x0, y0)
+        # one-frame file of this problem, psi overwritten with exp(i chi), used as the seed. With seed_gauge="other" the file
+        # comes from the problem stated in the unshifted gauge (a saved state of run a, gauge-transformed by the user):
+        # what the seed file says about *its* vector potential must not matter to the run it seeds
+        A_seed = potential(0.0, 0.0) if case.get("seed_gauge") == "other" else A
+        s0 = tdgl.solve(dev, opts(f"seed-{tag}.h5", 0), applied_vector_potential=A_seed, **kw)
         solver = tdgl.TDGLSolver(dev, opts(f"x-{tag}.h5", nsteps), applied_vector_potential=A, **kw)
         c_user = np.array([B * y0 / 2, -B * x0 / 2])  # A(x0,y0) - A(0,0)
         chi = (solver.A_scale * c_user) @ dev.mesh.sites.T
